@@ -706,3 +706,26 @@ Lemma max_messages_semantics_in_order e a :
   exists d, fresh e a = OutOrder d /\ d_msgs d = map RFile (spec_messages e a false) /\
             Subseq (spec_messages e a false) (e_log e).
 Proof. apply in_order_is_file_order. reflexivity. Qed.
+
+(* ------------------------------------------------------------------------------------------------ *)
+(** * No source filter requested: no source test *)
+
+Lemma no_source_filter_all_sources e a p types ignore m :
+  norm_args e a = (p, types, ignore) -> a_src a = None ->
+  read_pass e p m = (m_decodes m && (if a_p1 a then m_p1_some m else true) && (if a_sys a then m_sys_some m else true)).
+Proof.
+  intros En Hs. unfold norm_args in En. rewrite Hs in En.
+  change none_sources_sampled with false in En. inversion En; subst; clear En.
+  unfold read_pass. cbn [p_src p_p1 p_sys]. reflexivity.
+Qed.
+
+(* ... so the messages to return do not depend on which sources the reader happened to discover *)
+Lemma no_source_filter_spec e a : a_src a = None -> spec_messages e a false = spec_messages e a true.
+Proof.
+  intros Hs. unfold spec_messages, spec_selected. f_equal.
+  destruct (norm_args e a) as [[p types] ignore] eqn:En.
+  destruct (reduce_needed p types); [reflexivity |].
+  apply filter_ext. intros m. unfold spec_pass.
+  rewrite (no_source_filter_all_sources e a p types ignore m En Hs), Hs.
+  unfold norm_args in En. inversion En; subst. cbn [p_p1 p_sys]. reflexivity.
+Qed.
